@@ -10,18 +10,6 @@ func init() {
 	verifRegister("C12_disk", verifH_C12_disk)
 }
 
-// verifEqBytes asserts a == b byte-wise without short-circuit branching.
-func verifEqBytes(a, b []byte, id string) {
-	verifAssert(len(a) == len(b), id+"/len")
-	if len(a) != len(b) {
-		return
-	}
-	ok := true
-	for i := range a {
-		ok = ok && a[i] == b[i]
-	}
-	verifAssert(ok, id)
-}
 
 var verifValLens = []int{0, 1, 2, 399, 400}
 
